@@ -43,6 +43,9 @@ key_signature_pattern = re.compile(
     )
 )
 
+# Key names as written since version 1.0.0 ("Bb", "F#m", "E/C#m")
+key_signature_v1_pattern = re.compile(r"^[A-Ga-g][#b]*m?(/[A-Ga-g][#b]*m?)?$")
+
 pitch_class_pattern = re.compile("(?P<step>[A-Ga-g])(?P<alter>[#bn]*)")
 
 number_pattern = re.compile(r"\d+")
@@ -713,15 +716,22 @@ class MatchKeySignature(MatchParameter):
     def _parse_key_signature(cls, kstr: str) -> MatchKeySignature:
         # import pdb
         # pdb.set_trace()
-        ksinfo = key_signature_pattern.search(kstr)
+        # The v0.3.0 pattern also matches most v1.0.0 key names
+        # (e.g., "Bb" as B + mode "b", "Am" as A + mode "m"), so
+        # the v1.0.0 spelling has to be recognized first.
+        if key_signature_v1_pattern.match(kstr) is not None:
+            ksinfo = None
+        else:
+            ksinfo = key_signature_pattern.search(kstr)
 
         if ksinfo is None:
             fmt = "v1.0.0"
-            ksinfo = kstr.split("/")
-            fifths1, mode1 = key_name_to_fifths_mode(ksinfo[0].upper())
+            # only the step is case insensitive ("b" is a flat, "m" is minor)
+            ksinfo = [kn[:1].upper() + kn[1:] for kn in kstr.split("/")]
+            fifths1, mode1 = key_name_to_fifths_mode(ksinfo[0])
             fifths2, mode2 = None, None
             if len(ksinfo) == 2:
-                fifths2, mode2 = key_name_to_fifths_mode(ksinfo[1].upper())
+                fifths2, mode2 = key_name_to_fifths_mode(ksinfo[1])
         else:
             fmt = "v0.3.0"
             step1, alter1, mode1, step2, alter2, mode2 = ksinfo.groups()
